@@ -122,6 +122,36 @@ impl<'a, T: 'a> ParseElem<'a> for SliceByRef<'a, T> {
     }
 }
 
+/// The largest number of seconds that one component of a duration can have.
+///
+/// A duration literal has up to five components (days, hours, minutes,
+/// seconds and milliseconds) and a sign. With this limit for each component
+/// the duration is in the range of the type that represents the duration.
+const MAX_DURATION_COMPONENT_SECONDS: u64 = (i64::MAX / 8) as u64;
+
+/// Returns the value if the value, in units having the number of seconds,
+/// is in the range for a component of a duration. Otherwise returns
+/// the expected item (for the syntax error).
+fn duration_component(
+    value: FixedPoint,
+    seconds_per_unit: u64,
+) -> Result<FixedPoint, &'static str> {
+    match value.whole.checked_mul(seconds_per_unit) {
+        Some(seconds) if seconds <= MAX_DURATION_COMPONENT_SECONDS => Ok(value),
+        _ => Err("duration in range"),
+    }
+}
+
+/// Returns the integer as a fixed point number if the integer is in
+/// the range of the whole part of a fixed point number. Otherwise returns the
+/// expected item (for the syntax error).
+fn integer_to_fixed_point(value: Integer) -> Result<FixedPoint, &'static str> {
+    if value.value > u64::MAX as u128 {
+        return Err("number in range");
+    }
+    Ok(value.into())
+}
+
 parser! {
   grammar plc_parser<'a>() for SliceByRef<'a, Token> {
 
@@ -295,17 +325,17 @@ parser! {
       / h:hours() { h }
       / m:minutes() { m }
       / s:seconds() { s }
-    rule days() -> DurationLiteral = days:fixed_point() dt_sep("d") { DurationLiteral::days(days) } / days:integer() dt_sep("d") dt_sep("_")? hours:hours() { hours.plus(DurationLiteral::days(days.into())) }
+    rule days() -> DurationLiteral = days:fixed_point() dt_sep("d") {? duration_component(days, 86_400).map(DurationLiteral::days) } / days:integer() dt_sep("d") dt_sep("_")? hours:hours() {? integer_to_fixed_point(days).and_then(|days| duration_component(days, 86_400)).map(|days| hours.plus(DurationLiteral::days(days))) }
     rule fixed_point() -> FixedPoint =
       fp:tok(TokenType::FixedPoint) {?
         FixedPoint::parse(fp.text.as_str())
       }
       / i:integer() {?
-        Ok(i.into())
+        integer_to_fixed_point(i)
     }
-    rule hours() -> DurationLiteral = hours:fixed_point() dt_sep("h") { DurationLiteral::hours(hours) } / hours:integer() dt_sep("h") dt_sep("_")? min:minutes() { min.plus(DurationLiteral::hours(hours.into())) }
-    rule minutes() -> DurationLiteral = min:fixed_point() dt_sep("m") { DurationLiteral::minutes(min) } / mins:integer() dt_sep("m") dt_sep("_")? sec:seconds() { sec.plus(DurationLiteral::minutes(mins.into())) }
-    rule seconds() -> DurationLiteral = secs:fixed_point() dt_sep("s") { DurationLiteral::seconds(secs) } / sec:integer() dt_sep("s") dt_sep("_")? ms:milliseconds() { ms.plus(DurationLiteral::seconds(sec.into())) }
+    rule hours() -> DurationLiteral = hours:fixed_point() dt_sep("h") {? duration_component(hours, 3_600).map(DurationLiteral::hours) } / hours:integer() dt_sep("h") dt_sep("_")? min:minutes() {? integer_to_fixed_point(hours).and_then(|hours| duration_component(hours, 3_600)).map(|hours| min.plus(DurationLiteral::hours(hours))) }
+    rule minutes() -> DurationLiteral = min:fixed_point() dt_sep("m") {? duration_component(min, 60).map(DurationLiteral::minutes) } / mins:integer() dt_sep("m") dt_sep("_")? sec:seconds() {? integer_to_fixed_point(mins).and_then(|mins| duration_component(mins, 60)).map(|mins| sec.plus(DurationLiteral::minutes(mins))) }
+    rule seconds() -> DurationLiteral = secs:fixed_point() dt_sep("s") {? duration_component(secs, 1).map(DurationLiteral::seconds) } / sec:integer() dt_sep("s") dt_sep("_")? ms:milliseconds() {? integer_to_fixed_point(sec).and_then(|sec| duration_component(sec, 1)).map(|sec| ms.plus(DurationLiteral::seconds(sec))) }
     rule milliseconds() -> DurationLiteral = ms:fixed_point() dt_sep("ms") { DurationLiteral::milliseconds(ms) }
 
     // 1.2.3.2 Time of day and date
